@@ -29,3 +29,8 @@ Print Assumptions C12_restart.
 Print Assumptions C12_snapshot_stable.
 Print Assumptions C12_pickup_current.
 Print Assumptions C12_no_mix.
+
+(* non-vacuity (Proofs/ExampleFacts.v, by computation): restart(true) and restart(false) applied to a reachable idle state with four matches (the concrete resulting snapshots are computed), and a reachable state in which a tick installs the first snapshot of the new stream *)
+From NV Require Proofs.ExampleFacts.
+Definition C12_nonvacuous := ExampleFacts.C12_nonvacuous.
+Print Assumptions C12_nonvacuous.
